@@ -317,6 +317,11 @@ impl Sim {
         g.dead = true;
         g.log.push(&format!("KILL {what}"));
         drop(g);
+        if std::env::var_os("VERIF_HARD_KILL").is_some() {
+            // validation mode (child process): die the way SIGKILL kills -- no unwinding, no
+            // destructors, all other threads gone at the same instant
+            std::process::abort();
+        }
         panic_any(Killed)
     }
 
